@@ -21,7 +21,11 @@ PROP = {'rule': 'rapid-generated cases, one unit per package. '
            {'name': 'device',
             'pkg': 'pkg/scheduler/plugins/deviceshare',
             'files': ['C19/c19_device_test.go'],
-            'tests': [{'run': 'TestVerifC19DeviceReplay', 'quick': 300, 'thorough': 2000, 'steps': 20}]}],
+            'tests': [{'run': 'TestVerifC19DeviceReplay', 'quick': 300, 'thorough': 2000, 'steps': 20}]},
+           {'name': 'reservation',
+            'pkg': 'pkg/scheduler/plugins/reservation',
+            'files': ['C19/c19_reservation_test.go'],
+            'tests': [{'run': 'TestVerifC19ReservationReplay', 'quick': 300, 'thorough': 2000, 'steps': 25}]}],
  'manifest': {'technique': 'property-based testing (rapid): round-trip and decode-idempotence of the bind-time annotation codecs; '
                            'differential replay of generated allocation histories into fresh plugin caches',
               'text': 'TODO',
